@@ -131,6 +131,11 @@ func runFsmScenarios(name string, args []string) error {
 			f.close()
 		}
 	}
+	if name == "c02" {
+		if err := runC02Concurrent(sum); err != nil {
+			return err
+		}
+	}
 	if len(sum.Samples) == 0 {
 		sum.Samples = append(sum.Samples, cf.Descr[0])
 	}
@@ -140,4 +145,73 @@ func runFsmScenarios(name string, args []string) error {
 	}
 	sum.CasesFiles = names
 	return sum.write(rf.Out, name)
+}
+
+// runC02Concurrent: Lookup runs concurrently with Update (dragonboat's contract for on-disk state machines): a
+// read-only transaction must answer from ONE state. A writer keeps two keys equal (both written by one transaction),
+// with a range of padding keys between them in key order; readers compare them inside one read-only transaction.
+func runC02Concurrent(sum *Summary) error {
+	f, _, err := newRealFSM(vfs.NewMem(), fsm.RecoveryTypeSnapshot)
+	if err != nil {
+		return err
+	}
+	defer f.close()
+	idx := uint64(0)
+	var pad []gEntry
+	for i := 0; i < 4000; i++ {
+		idx++
+		pad = append(pad, gEntry{Idx: idx, Cmd: gCmd{Kind: regattapb.Command_PUT, K: []byte(fmt.Sprintf("m%05d", i)), V: []byte("padding-padding-padding")}})
+	}
+	if _, _, err := f.apply(pad); err != nil {
+		return err
+	}
+	stop := make(chan struct{})
+	done := make(chan error, 1)
+	go func() {
+		for i := 0; ; i++ {
+			select {
+			case <-stop:
+				done <- nil
+				return
+			default:
+			}
+			idx++
+			v := []byte(fmt.Sprintf("v%d", i))
+			if _, _, err := f.apply([]gEntry{{Idx: idx, Cmd: gCmd{Kind: regattapb.Command_TXN, Succ: []gOp{{Kind: 1, K: []byte("a"), V: v}, {Kind: 1, K: []byte("z"), V: v}}}}}); err != nil {
+				done <- err
+				return
+			}
+		}
+	}()
+	torn := 0
+	rounds := 400
+	for i := 0; i < rounds && torn == 0; i++ {
+		t, err := f.txnRO(nil, []gOp{{Kind: 0, R: gRange{Key: []byte("a")}}, {Kind: 0, R: gRange{Key: []byte("m"), End: []byte("n"), CountOnly: true}}, {Kind: 0, R: gRange{Key: []byte("z")}}}, nil)
+		if err != nil {
+			close(stop)
+			<-done
+			return err
+		}
+		if len(t.Responses) == 3 {
+			a, z := t.Responses[0].GetResponseRange(), t.Responses[2].GetResponseRange()
+			va, vz := "", ""
+			if len(a.Kvs) > 0 {
+				va = string(a.Kvs[0].Value)
+			}
+			if len(z.Kvs) > 0 {
+				vz = string(z.Kvs[0].Value)
+			}
+			if va != vz {
+				torn++
+				sum.violate(90000+i, "a read-only transaction returns answers from two different table states", map[string]any{"scenario": "writer: one transaction puts a and z to the same value, repeatedly; reader: read-only transaction [get a; count m..n; get z]", "round": i}, fmt.Sprintf("a=%q z=%q", va, vz))
+			}
+		}
+	}
+	close(stop)
+	if err := <-done; err != nil {
+		return err
+	}
+	sum.Evaluations += rounds
+	sum.hist("steps").Inc("concurrent read-only txn rounds")
+	return nil
 }
